@@ -1353,7 +1353,7 @@ func (h *vC03Hist) msgChaseHistory(clientClass uint16) {
 		if r.Intn(3) == 0 {
 			parts = append(parts, part{r.Intn(2) == 0, map[uint16]uint16{1: 28, 28: 1}[qtype], qclass})
 		}
-		// the same chain in the other class (the chase's sub-queries are class IN whatever the client asked)
+		// the same chain in the other class (a chase that left the client's class would find these)
 		other := map[uint16]uint16{1: 3, 3: 1}[qclass]
 		if clientClass != 1 || r.Intn(3) == 0 {
 			parts = append(parts, part{false, qtype, other}, part{true, qtype, other})
@@ -1918,8 +1918,9 @@ func vC03History(r *rand.Rand) map[string]any {
 		if flavour == 6 {
 			h.prefetchHistory()
 		} else if r.Intn(6) == 0 {
-			// a class-CH client: the decoded-path chase asks its sub-queries in class IN (known finding)
-			kind, fkey = "hist-msgchase-class", "msg-chase-subquery-class-in"
+			// a class-CH client with the same chain cached in class IN: the chase must stay in class CH
+			// (regression for fix f46047f)
+			kind = "hist-msgchase-class"
 			h.msgChaseHistory(3)
 		} else {
 			kind = "hist-msgchase"
